@@ -62,6 +62,31 @@ static inline uint32_t spec_ham24 (uint32_t d)
 	return w;
 }
 
+/* Hamming 8/4 decoder specification: the data nibble of the unique code word
+   within Hamming distance <= 1 of b, or -1 (distance 2: uncorrectable) */
+static inline int spec_unham8 (unsigned b)
+{
+	unsigned d, i, x, n;
+	int r = -1;
+	for (d = 0; d < 16; ++d) {
+		x = (spec_ham8 (d) ^ b) & 0xFFu;
+		n = 0;
+		for (i = 0; i < 8; ++i) n += spec_bit (x, i);
+		if (n <= 1) r = (int) d;
+	}
+	return r;
+}
+
+/* the same function through a constant table (generated from spec_unham8,
+   and re-proved equal to it for all 256 bytes by job lemma:spec_unham8_tab):
+   cheap when the specification decodes many bytes */
+
+static inline void spec_hamm_init (void) { }
+#ifndef SPEC_GEN_TAB
+#include "contracts/hamm_spec_tab.h"
+static inline int spec_unham8c (unsigned b) { return spec_unham8_ctab[b & 255u]; }
+#endif
+
 static inline unsigned spec_rev8 (unsigned c)
 {
 	unsigned i, r = 0;
